@@ -193,6 +193,19 @@ func makeInterestF(name string, g int, cbp, mbf bool, lifeMs int, nonce uint64) 
 	return it
 }
 
+func makeInterestHop(name string, cbp bool, lifeMs int, nonce uint64, hop *uint) *ndn.EncodedInterest {
+	cfg := &ndn.InterestConfig{CanBePrefix: cbp, Nonce: &nonce, HopLimit: hop}
+	if lifeMs != 0 {
+		l := time.Duration(lifeMs) * time.Millisecond
+		cfg.Lifetime = &l
+	}
+	it, err := spec.Spec{}.MakeInterest(interestName(name, 0), cfg, nil, nil)
+	if err != nil {
+		panic(err)
+	}
+	return it
+}
+
 func lpWrap(fragment []byte, token []byte, nack uint64) []byte {
 	lp := &spec.LpPacket{PitToken: token, Fragment: enc.Wire{fragment}}
 	if nack != 0 {
@@ -892,7 +905,15 @@ func (h *harness) step(step int, op Op, nInt *int) error {
 		if len(comps(op.N)) == 0 {
 			return nil
 		}
-		it := makeInterest(op.N, 0, op.P, op.L, uint64(1000+idx))
+		// the rarely used HopLimit field: absent, 0 (what an Interest sent with 1 carries when the local
+		// forwarder hands it to the application: it may not travel further, but it has arrived), 1, 255
+		var hop *uint
+		if k := idx % 4; k > 0 {
+			hop = new(uint)
+			*hop = []uint{0, 0, 1, 255}[k]
+			h.cls[fmt.Sprintf("incoming-interest-with-hop-limit-%d", *hop)] = true
+		}
+		it := makeInterestHop(op.N, op.P, op.L, uint64(1000+idx), hop)
 		wire := it.Wire.Join()
 		if op.Lp {
 			ic.token = []byte{0xA0, byte(idx), 0x33, 0x44}
